@@ -36,7 +36,7 @@ CLAIMS = {
             "Outside: catalog rows, overflow chains across reopen, Pager::sync_header I/O; ids >= 8192 are dropped by the bitmap (recorded known finding).",
             "complete Kani harnesses + an injected Kani function contract on the real crate + Verus contracts on extracted pager functions", "4 C09"),
     'C10': ("Decided for all inputs (Verus): Btree::binary_search_page finds a key iff it is present on a sorted page and terminates; Btree::find_child_on_page routes to the child of the first separator greater than the key, else the right child; every cell index stays in bounds. Btree::insert/upsert/update/search_tuple position on the key area of the tuple they are given; CellComparator::compare_keys is the lexicographic order of the key columns at their own byte positions.",
-            "Outside: insert/remove/balance (800 lines over pager-backed pages), sibling links, overflow reassembly, the comparator's own correctness (assumed total order; see C19).",
+            "Outside: balance/split/merge (800 lines over pager-backed pages), sibling links, overflow reassembly, and the slotted-page layer itself (BtreePage insert/replace/remove/defragment: raw-pointer code that Verus cannot take and Kani cannot finish, DESIGN M14 -- two defects found and repaired there are guarded by demonstration tests only).",
             "Verus contracts with loop invariants on verbatim-extracted functions", "4 C10"),
     'C11': ("Decided for all inputs (Verus, unit pageralloc): against the abstract free list s (first_free = s[0], next(s[i]) = s[i+1], next(last) = None, last_free = s.last(), no duplicates) Pager::allocate_page returns s[0] and leaves the list s[1..] with the page count unchanged, or -- only when the list is empty -- hands out the next fresh page number and grows the file by one; Pager::dealloc_page(id) turns any list s not containing id into s + [id], refuses page zero, writes the freed page's free-format image at its own page id as a whole page and caches it; every frame either function puts into the cache is dirty or already written.",
             "Outside: that each non-free page is owned by exactly one tree node or overflow chain (an invariant over the whole file: B-tree and cell code through the pager), who calls dealloc_page and when (no double free is a stated precondition), VACUUM/DROP returning pages.",
